@@ -456,7 +456,7 @@ def shipped_spaces():
 
 def gen_scripts(ck, tier):
     """list of (tag, script lines, counts)"""
-    n_pairs, n_rand_sp, n_rand_t, n_rep = (40, 300, 3, 4) if tier == "quick" else (150, 2500, 6, 8)
+    n_pairs, n_rand_sp, n_rand_t, n_rep = (40, 300, 3, 4) if tier == "quick" else (100, 1200, 5, 6)
     scripts = []
     spaces = [("shipped", sp) for sp in shipped_spaces()]
     r0 = ck.rng.fork("spaces")
@@ -599,17 +599,20 @@ def oracle_line(sp, line, out):
                 return lf["owner"], i
         return "unknown", None
 
-    def bounds_record(key, rt, what):
+    def bounds_record(rt, what, frm):
+        """frm = leaf values of the `from` state of the interpolate call that produced rt"""
         own, i = attribute(rt, lambda lf, v, i: leaf_in_bounds(lf, v))
         cls = "out of bounds"
-        if i is not None and lv[i]["kind"] == "so2":
-            cls = so2_class(a[i][0], b[i][0], vals(lv[i], split_state(lv, rt)[i])[0]) if key == "r" else "so2 component out of [-pi, pi)"
-        if i is not None and lv[i]["kind"] == "so2" and lv[i]["owner"] == "klein" and key == "r" and i > 0 \
-                and abs(b[i - 1][0] - a[i - 1][0]) > 0.5 * PI:
-            # Klein's own copy of the SO(2) wrap (seam branch); its cylinder branch is the SO(2) clause above
-            cls = "seam-branch v == +pi" if vals(lv[i], split_state(lv, rt)[i])[0] == PI else "seam-branch v outside [-pi, pi]"
-        if i is not None and lv[i]["kind"] in ("rv", "time") and lv[i]["lo"] is not None:
-            if ulp_out(lv[i], vals(lv[i], split_state(lv, rt)[i])) <= 4.0:
+        if i is not None:
+            v = vals(lv[i], split_state(lv, rt)[i])
+            if lv[i]["kind"] == "so2":
+                cls = so2_class(frm[i][0], b[i][0], v[0])
+                if lv[i]["owner"] == "klein" and i > 0 and abs(b[i - 1][0] - frm[i - 1][0]) > 0.5 * PI:
+                    # Klein's own copy of the SO(2) code (seam branch); its cylinder branch is the SO(2) clause
+                    cls = "seam-branch v == +pi" if v[0] == PI else "seam-branch v outside [-pi, pi]"
+                    if v[0] == PI and (0 < frm[i][0] < 2.0 ** -51 or 0 < b[i][0] < 2.0 ** -51):
+                        cls = "seam-branch v == +pi: mirror(v) = pi - v rounds to +pi for 0 < v < ulp(pi)/2 (rounding)"
+            if lv[i]["kind"] in ("rv", "time") and lv[i]["lo"] is not None and ulp_out(lv[i], v) <= 4.0:
                 cls = "rounding: <= 4 ulp(max |bound|) outside the box (satisfiesBounds has only an absolute DBL_EPSILON slack)"
         return {"clause": "bounds", "culprit": own, "class": cls, "what": what}
 
@@ -632,8 +635,13 @@ def oracle_line(sp, line, out):
             fails.append({"clause": "alias", "culprit": own, "class": which,
                           "what": "interpolate with %s differs from the run with a distinct output state" % which})
         if f["sb"] != ["1"]:
-            fails.append(bounds_record("r", r, "interpolate(from,to,t) at t=%r does not satisfy the space's bounds" % t))
+            fails.append(bounds_record(r, "interpolate(from,to,t) at t=%r does not satisfy the space's bounds" % t, a))
         dfr, dft, drt = f["dfr"][0], f["dft"][0], f["drt"][0]
+        if f["sb"] != ["1"] and f.get("enf") == ["1"]:
+            # the result is out of bounds (reported above); its distances were taken after enforceBounds on a
+            # copy (+pi -> -pi, which e.g. lands on the mirrored twin in a Mobius strip), so the distance-based
+            # clauses would only restate that failure
+            return fails
         rl = [vals(lf, x) for lf, x in zip(lv, split_state(lv, r))]
         # (`-` only if enforceBounds itself fails to bring a state into bounds; then judge leaf by leaf)
         close0 = dfr == "-" and all(leaf_close(lf, x, y) for lf, x, y in zip(lv, rl, a))
@@ -661,11 +669,13 @@ def oracle_line(sp, line, out):
                 return fails
         for key, flag in (("s3", "sbs3"), ("r", "sbr"), ("direct", "sbd")):
             if f[flag] != ["1"]:
-                fails.append(bounds_record(key, f[key], "%s of the re-parameterisation sequence (s=%r,u=%r) does not satisfy the bounds" % (key, s, u)))
+                frm = [vals(lf, x) for lf, x in zip(lv, split_state(lv, f["s3"]))] if key == "r" else a
+                fails.append(bounds_record(f[key], "%s of the re-parameterisation sequence (s=%r,u=%r) does not satisfy the bounds" % (key, s, u), frm))
         if f["ra"] != f["r"]:
             fails.append({"clause": "alias", "culprit": sp[0], "class": "output==from (continued interpolation)",
                           "what": "interpolate(s3,to,u,s3) differs from the run with a distinct output"})
-        if is_continuous(sp) and f["d"][0] != "-":
+        oob = any(f[flag] != ["1"] for flag in ("sbs3", "sbr", "sbd"))
+        if is_continuous(sp) and f["d"][0] != "-" and not (oob and f.get("enf") == ["1"]):
             d = bf(f["d"][0])
             if not d <= slack:
                 rs, ds = split_state(lv, f["r"]), split_state(lv, f["direct"])
@@ -674,7 +684,7 @@ def oracle_line(sp, line, out):
                 if owners == ["klein"]:
                     # Klein seam branch: before the crossing the v-arc is chosen between from.v and mirror(to.v),
                     # after it between mirror(from.v) and to.v; when those are half a turn apart (|diffV| = pi up
-                    # to rounding) the two choices can be opposite arcs and v jumps at the crossing (F18)
+                    # to rounding) the two choices can be opposite arcs and v jumps at the crossing (F-C07-c)
                     for i, lf in enumerate(lv):
                         if lf["owner"] == "klein" and lf.get("role") == "u" and abs(b[i][0] - a[i][0]) > 0.5 * PI:
                             v1, v2 = a[i + 1][0], b[i + 1][0]
